@@ -65,7 +65,22 @@ wrapint::wrapint(ikos::z_number n, bitwidth_t width)
   assert(_width <= 64);
   compute_mod();
   if (!n.fits_int64()) {
-    CRAB_ERROR(n, " does not fit in an int64_t.");
+    // Reduce n modulo 2^64 first (e.g., 2^63 is the bit pattern of
+    // INT64_MIN): r is in [0, 2^64)
+    ikos::z_number two_63 = ikos::z_number(1) << ikos::z_number(63);
+    ikos::z_number two_64 = two_63 + two_63;
+    ikos::z_number r = n % two_64;
+    if (r < 0) {
+      r = r + two_64;
+    }
+    uint64_t u = 0;
+    if (r >= two_63) {
+      r = r - two_63;
+      u = (uint64_t)1 << 63;
+    }
+    u += static_cast<uint64_t>(static_cast<int64_t>(r));
+    _n = (_width == 64 ? u : u % _mod);
+    return;
   }
   int64_t x = static_cast<int64_t>(n);
   if (_width == 64) {
@@ -81,16 +96,8 @@ wrapint::wrapint(ikos::q_number n, bitwidth_t width)
   sanity_check_bitwidth();
   assert(_width <= 64);
   compute_mod();
-  ikos::z_number i = n.round_to_upper();
-  if (!i.fits_int64()) {
-    CRAB_ERROR(n, " does not fit in an int64_t.");
-  }
-  int64_t x = static_cast<int64_t>(i);
-  if (_width == 64) {
-    _n = static_cast<uint64_t>(x);
-  } else {
-    _n = static_cast<uint64_t>(x) % _mod;
-  }
+  // same reduction modulo 2^width as for big integers
+  _n = wrapint(n.round_to_upper(), width)._n;
 }
 
 wrapint::wrapint(std::string s, bitwidth_t width)
